@@ -3,12 +3,15 @@
 use crate::sim::{self, decisions_from_json, decisions_to_json, decisions_to_mode, run_sim, Check, RunOut, Viol};
 use anytls_simnet::world::{self, DecMode, Decision};
 use serde_json::{json, Value};
-use std::collections::{BTreeMap, BTreeSet, HashSet};
+use std::collections::{BTreeMap, HashSet};
 use std::io::{BufRead, Write};
 use std::process::{Command, Stdio};
 use std::time::Instant;
 
-pub const VERIF_DIR: &str = "/verif";
+/// root of the verification tree (bin/check exports VERIF_DIR; /verif by default)
+pub fn verif_dir() -> String {
+    std::env::var("VERIF_DIR").unwrap_or_else(|_| "/verif".to_string())
+}
 
 pub fn verif_seed() -> u64 {
     std::env::var("VERIF_SEED").ok().and_then(|s| s.parse::<u64>().ok()).unwrap_or(1)
@@ -42,7 +45,7 @@ pub struct Known {
 }
 
 pub fn load_known() -> Vec<Known> {
-    let path = format!("{}/known_findings.json", VERIF_DIR);
+    let path = format!("{}/known_findings.json", verif_dir());
     let Ok(s) = std::fs::read_to_string(&path) else { return vec![] };
     let Ok(v) = serde_json::from_str::<Value>(&s) else {
         eprintln!("harness error: cannot parse {}", path);
@@ -107,6 +110,14 @@ pub fn panic_sig(p: &str) -> String {
 }
 
 pub fn run_line(check: &dyn Check, verif_seed: u64, idx: u64, thorough: bool, want_sample: bool) -> Value {
+    let (mut line, faults, probes) = run_line_split(check, verif_seed, idx, thorough, want_sample);
+    line["faults"] = json!(faults);
+    line["probes"] = json!(probes);
+    line
+}
+
+/// one run: compact per-run line + the run's fault / probe counters (aggregated by the worker)
+pub fn run_line_split(check: &dyn Check, verif_seed: u64, idx: u64, thorough: bool, want_sample: bool) -> (Value, BTreeMap<String, u64>, BTreeMap<String, u64>) {
     let rs = run_seed(verif_seed, check.id(), idx);
     let plan = check.gen_plan(rs, idx, thorough);
     let out = run_sim(check, &plan, rs, DecMode::Hash, false);
@@ -114,39 +125,52 @@ pub fn run_line(check: &dyn Check, verif_seed: u64, idx: u64, thorough: bool, wa
     let plan_hash = world::fnv(&plan.to_string());
     let mut line = json!({
         "idx": idx,
-        "seed": hex(rs),
-        "viols": viols_json(&vs),
-        "nontrivial": out.outcome.nontrivial,
-        "ev_hash": hex(out.ev_hash),
-        "ev_count": out.ev_count,
-        "il_hash": hex(out.il_hash),
-        "plan_hash": hex(plan_hash),
-        "vtime_us": out.vtime_us,
-        "polls": out.polls,
-        "faults": out.faults,
-        "probes": out.probes,
-        "ndec": out.decisions.len(),
-        "harness_panic": out.harness_panic,
-        "repo_panics": out.repo_panics.len(),
+        "nt": out.outcome.nontrivial,
+        "eh": hex(out.ev_hash),
+        "ec": out.ev_count,
+        "il": hex(out.il_hash),
+        "ph": hex(plan_hash),
+        "vt": out.vtime_us,
+        "po": out.polls,
     });
-    if want_sample {
-        line["sample"] = json!({"plan": plan, "summary": out.outcome.summary});
+    if !vs.is_empty() {
+        line["viols"] = viols_json(&vs);
     }
-    line
+    if let Some(hp) = &out.harness_panic {
+        line["harness_panic"] = json!(hp);
+    }
+    if want_sample {
+        line["seed"] = json!(hex(rs));
+        line["sample"] = json!({"plan": plan, "summary": out.outcome.summary, "faults": out.faults});
+    }
+    (line, out.faults, out.probes)
 }
 
-pub fn worker(check: &dyn Check, verif_seed: u64, thorough: bool, w: u64, nw: u64, n: u64, only: Option<Vec<u64>>) {
+pub enum Slice {
+    All,
+    Only(Vec<u64>),
+    /// the worker's own residue class, indices greater than this one
+    After(u64),
+}
+
+pub fn worker(check: &dyn Check, verif_seed: u64, thorough: bool, w: u64, nw: u64, n: u64, slice: Slice) {
     sim::install_panic_hook();
     set_rlimit_as(1 << 30);
     let stdout = std::io::stdout();
-    let idxs: Vec<u64> = match only {
-        Some(v) => v,
-        None => (0..n).filter(|i| i % nw == w).collect(),
+    let slice_len = match &slice {
+        Slice::Only(v) => Some(v.len()),
+        _ => None,
     };
-    if check.one_per_process() && idxs.len() != 1 {
+    let idxs: Box<dyn Iterator<Item = u64>> = match slice {
+        Slice::Only(v) => Box::new(v.into_iter()),
+        Slice::All => Box::new((0..n).filter(move |i| i % nw == w)),
+        Slice::After(a) => Box::new((0..n).filter(move |i| i % nw == w && *i > a)),
+    };
+    let single = matches!(&slice_len, Some(1));
+    if check.one_per_process() && !single {
         // process-wide state is part of the scenario: every case runs in a process of its own
         for idx in idxs {
-            let mut c = spawn_worker(check.id(), thorough, verif_seed, 0, 1, Some(&[idx]));
+            let mut c = spawn_worker(check.id(), thorough, verif_seed, 0, 1, Some(&format!("{}", idx)));
             let out = c.stdout.take().unwrap();
             let mut o = stdout.lock();
             for l in std::io::BufReader::new(out).lines().map_while(Result::ok) {
@@ -157,18 +181,43 @@ pub fn worker(check: &dyn Check, verif_seed: u64, thorough: bool, w: u64, nw: u6
         }
         return;
     }
+    let mut faults: BTreeMap<String, u64> = BTreeMap::new();
+    let mut probes: BTreeMap<String, u64> = BTreeMap::new();
+    let mut since = 0u64;
+    let flush_agg = |faults: &mut BTreeMap<String, u64>, probes: &mut BTreeMap<String, u64>| {
+        let mut o = stdout.lock();
+        let _ = writeln!(o, "{}", json!({"agg": {"faults": &*faults, "probes": &*probes}}));
+        let _ = o.flush();
+        faults.clear();
+        probes.clear();
+    };
+    let mut k = 0u64;
     for idx in idxs {
         // announce first, so that an abort() is attributable to this index
         {
             let mut o = stdout.lock();
-            let _ = writeln!(o, "{}", json!({"start": idx}));
+            let _ = writeln!(o, "{{\"start\":{}}}", idx);
             let _ = o.flush();
         }
-        let line = run_line(check, verif_seed, idx, thorough, idx < 3 * nw || idx % 997 == 0);
-        let mut o = stdout.lock();
-        let _ = writeln!(o, "{}", line);
-        let _ = o.flush();
+        let (line, f, p) = run_line_split(check, verif_seed, idx, thorough, k < 3 || idx % 99_991 == 0);
+        k += 1;
+        for (kk, v) in f {
+            *faults.entry(kk).or_insert(0) += v;
+        }
+        for (kk, v) in p {
+            *probes.entry(kk).or_insert(0) += v;
+        }
+        {
+            let mut o = stdout.lock();
+            let _ = writeln!(o, "{}", line);
+        }
+        since += 1;
+        if since >= 2_000 {
+            since = 0;
+            flush_agg(&mut faults, &mut probes);
+        }
     }
+    flush_agg(&mut faults, &mut probes);
 }
 
 // ---------------------------------------------------------------------------------------------
@@ -343,55 +392,83 @@ pub fn replay(checks: &[&'static dyn Check], path: &str) -> i32 {
 
 struct Agg {
     evaluations: u64,
-    distinct: HashSet<(String, String)>,
+    distinct: HashSet<(u64, u64)>,
     vtime_us: u128,
     polls: u128,
     faults: BTreeMap<String, u64>,
     probes: BTreeMap<String, u64>,
-    il: HashSet<String>,
-    evh: HashSet<String>,
+    il: HashSet<u64>,
+    evh: HashSet<u64>,
     samples: Vec<Value>,
     viol_runs: Vec<(u64, Viol)>,
+    viol_overflow: u64,
     known_hits: BTreeMap<(String, String), u64>,
     harness_errors: Vec<String>,
+    /// event-log hash of a sample of the indices (for the determinism recheck / selftest dump)
     hashes: BTreeMap<u64, String>,
-    started: BTreeSet<u64>,
-    finished: BTreeSet<u64>,
+    hash_step: u64,
+    /// per worker: (last index announced, last index finished)
+    progress: Vec<(Option<u64>, Option<u64>)>,
 }
 
 fn self_exe() -> std::path::PathBuf {
     std::env::current_exe().expect("current_exe")
 }
 
-fn spawn_worker(check: &str, thorough: bool, verif_seed: u64, w: u64, nw: u64, only: Option<&[u64]>) -> std::process::Child {
+/// `slice`: None = the worker's whole residue class, "gt:<idx>" = the rest of it, "<i>,<j>,…" = exactly these
+fn spawn_worker(check: &str, thorough: bool, verif_seed: u64, w: u64, nw: u64, slice: Option<&str>) -> std::process::Child {
     let mut c = Command::new(self_exe());
     c.arg("worker").arg(check).arg(if thorough { "thorough" } else { "quick" }).arg(verif_seed.to_string()).arg(w.to_string()).arg(nw.to_string());
-    if let Some(o) = only {
-        c.arg(o.iter().map(|i| i.to_string()).collect::<Vec<_>>().join(","));
+    if let Some(o) = slice {
+        c.arg(o);
     }
     c.stdout(Stdio::piped()).stderr(Stdio::inherit());
     c.spawn().expect("spawn worker")
 }
 
-fn absorb(agg: &mut Agg, known: &[Known], prop: &str, line: &Value) {
+fn unhex(s: &str) -> u64 {
+    u64::from_str_radix(s, 16).unwrap_or(0)
+}
+
+fn absorb(agg: &mut Agg, known: &[Known], prop: &str, w: usize, line: &Value) {
     if let Some(i) = line["start"].as_u64() {
-        agg.started.insert(i);
+        if w < agg.progress.len() {
+            agg.progress[w].0 = Some(i);
+        }
         return;
     }
-    let idx = line["idx"].as_u64().unwrap_or(0);
-    agg.finished.insert(idx);
+    if let Some(a) = line.get("agg") {
+        for (k, v) in a["faults"].as_object().into_iter().flatten() {
+            *agg.faults.entry(k.clone()).or_insert(0) += v.as_u64().unwrap_or(0);
+        }
+        for (k, v) in a["probes"].as_object().into_iter().flatten() {
+            *agg.probes.entry(k.clone()).or_insert(0) += v.as_u64().unwrap_or(0);
+        }
+        return;
+    }
+    let Some(idx) = line["idx"].as_u64() else { return };
+    if w < agg.progress.len() {
+        agg.progress[w].1 = Some(idx);
+    }
     agg.evaluations += 1;
     if let Some(hp) = line["harness_panic"].as_str() {
-        agg.harness_errors.push(format!("idx {}: harness panic: {}", idx, hp));
+        if agg.harness_errors.len() < 50 {
+            agg.harness_errors.push(format!("idx {}: harness panic: {}", idx, hp));
+        }
     }
-    agg.vtime_us += line["vtime_us"].as_u64().unwrap_or(0) as u128;
-    agg.polls += line["polls"].as_u64().unwrap_or(0) as u128;
-    if line["nontrivial"].as_bool().unwrap_or(false) {
-        agg.distinct.insert((line["plan_hash"].as_str().unwrap_or("").to_string(), line["il_hash"].as_str().unwrap_or("").to_string()));
+    agg.vtime_us += line["vt"].as_u64().unwrap_or(0) as u128;
+    agg.polls += line["po"].as_u64().unwrap_or(0) as u128;
+    let il = unhex(line["il"].as_str().unwrap_or("0"));
+    let eh = unhex(line["eh"].as_str().unwrap_or("0"));
+    if line["nt"].as_bool().unwrap_or(false) {
+        agg.distinct.insert((unhex(line["ph"].as_str().unwrap_or("0")), il));
     }
-    agg.il.insert(line["il_hash"].as_str().unwrap_or("").to_string());
-    agg.evh.insert(line["ev_hash"].as_str().unwrap_or("").to_string());
-    agg.hashes.insert(idx, line["ev_hash"].as_str().unwrap_or("").to_string());
+    agg.il.insert(il);
+    agg.evh.insert(eh);
+    if idx % agg.hash_step == 0 {
+        agg.hashes.insert(idx, line["eh"].as_str().unwrap_or("").to_string());
+    }
+    // legacy (single-run) lines carry their counters inline
     for (k, v) in line["faults"].as_object().into_iter().flatten() {
         *agg.faults.entry(k.clone()).or_insert(0) += v.as_u64().unwrap_or(0);
     }
@@ -400,15 +477,17 @@ fn absorb(agg: &mut Agg, known: &[Known], prop: &str, line: &Value) {
     }
     if let Some(s) = line.get("sample") {
         if agg.samples.len() < 4 {
-            agg.samples.push(json!({"idx": idx, "seed": line["seed"], "case": s, "faults": line["faults"], "events": line["ev_count"]}));
+            agg.samples.push(json!({"idx": idx, "seed": line["seed"], "case": {"plan": s["plan"], "summary": s["summary"]}, "faults": s["faults"], "events": line["ec"]}));
         }
     }
     for v in line["viols"].as_array().into_iter().flatten() {
         let viol = Viol { clause: v["clause"].as_str().unwrap_or("").into(), sig: v["sig"].as_str().unwrap_or("").into(), detail: v["detail"].as_str().unwrap_or("").into() };
         if is_known(known, prop, &viol) {
             *agg.known_hits.entry((viol.clause.clone(), viol.sig.clone())).or_insert(0) += 1;
-        } else {
+        } else if agg.viol_runs.len() < 20_000 {
             agg.viol_runs.push((idx, viol));
+        } else {
+            agg.viol_overflow += 1;
         }
     }
 }
@@ -431,72 +510,78 @@ pub fn check_cmd(check: &'static dyn Check, thorough: bool) -> i32 {
         evh: HashSet::new(),
         samples: vec![],
         viol_runs: vec![],
+        viol_overflow: 0,
         known_hits: BTreeMap::new(),
         harness_errors: vec![],
         hashes: BTreeMap::new(),
-        started: BTreeSet::new(),
-        finished: BTreeSet::new(),
+        hash_step: if std::env::var("VERIF_DUMP_HASHES").is_ok() { 1 } else { std::cmp::max(1, n / 512) },
+        progress: vec![(None, None); nw as usize],
     };
     println!("[{}] {} tier: {} runs on {} workers, VERIF_SEED={}", prop, if thorough { "thorough" } else { "quick" }, n, nw, vs);
-    let mut children: Vec<std::process::Child> = (0..nw).map(|w| spawn_worker(prop, thorough, vs, w, nw, None)).collect();
-    let mut readers = Vec::new();
-    for c in children.iter_mut() {
-        let out = c.stdout.take().unwrap();
-        readers.push(std::thread::spawn(move || {
-            let mut lines = Vec::new();
+    // workers stream one line per run; reader threads forward them, the main thread aggregates as they come
+    let (tx, rx) = std::sync::mpsc::sync_channel::<(usize, Option<Value>)>(65_536);
+    let mut children: Vec<Option<std::process::Child>> = Vec::new();
+    let attach = |child: &mut std::process::Child, w: usize, tx: std::sync::mpsc::SyncSender<(usize, Option<Value>)>| {
+        let out = child.stdout.take().unwrap();
+        std::thread::spawn(move || {
             for l in std::io::BufReader::new(out).lines().map_while(Result::ok) {
                 if let Ok(v) = serde_json::from_str::<Value>(&l) {
-                    lines.push(v);
+                    if tx.send((w, Some(v))).is_err() {
+                        return;
+                    }
                 }
             }
-            lines
-        }));
+            let _ = tx.send((w, None));
+        });
+    };
+    for w in 0..nw {
+        let mut c = spawn_worker(prop, thorough, vs, w, nw, None);
+        attach(&mut c, w as usize, tx.clone());
+        children.push(Some(c));
     }
     let mut crashed: Vec<u64> = Vec::new();
     let mut stopped_after_crashes = false;
-    for (i, r) in readers.into_iter().enumerate() {
-        let lines = r.join().unwrap_or_default();
-        for l in &lines {
-            absorb(&mut agg, &known, prop, l);
-        }
-        let st = children[i].wait().ok();
-        if !st.map(|s| s.success()).unwrap_or(false) {
-            // the worker died (abort / kill): the index it had announced and not finished is the culprit;
-            // the rest of its slice runs in fresh processes, as often as it takes
-            let mut respawns = 0;
-            loop {
-                let dead: Vec<u64> = agg.started.difference(&agg.finished).copied().filter(|x| x % nw == i as u64 && !crashed.contains(x)).collect();
-                if dead.is_empty() {
-                    if respawns == 0 {
-                        agg.harness_errors.push(format!("worker {} exited with {:?} without an unfinished run", i, st));
+    let mut live = nw as usize;
+    while live > 0 {
+        let Ok((w, msg)) = rx.recv() else { break };
+        match msg {
+            Some(v) => absorb(&mut agg, &known, prop, w, &v),
+            None => {
+                // this worker's output ended: did it finish or die?
+                let ok = children[w].take().map(|mut c| c.wait().map(|s| s.success()).unwrap_or(false)).unwrap_or(false);
+                let (started, finished) = agg.progress[w];
+                if ok {
+                    live -= 1;
+                    continue;
+                }
+                // the worker died (abort / kill): the index it had announced and not finished is the culprit;
+                // the rest of its slice runs in a fresh process
+                match started {
+                    Some(s) if Some(s) != finished => {
+                        crashed.push(s);
+                        agg.progress[w].1 = Some(s);
+                        let more = (0..n).any(|x| x % nw == w as u64 && x > s);
+                        if !more {
+                            live -= 1;
+                        } else if crashed.len() >= 10 {
+                            // enough evidence: the violation is reported, the rest of the slice is not explored
+                            stopped_after_crashes = true;
+                            live -= 1;
+                        } else {
+                            let mut c = spawn_worker(prop, thorough, vs, w as u64, nw, Some(&format!("gt:{}", s)));
+                            attach(&mut c, w, tx.clone());
+                            children[w] = Some(c);
+                        }
                     }
-                    break;
-                }
-                crashed.extend(dead.iter().copied());
-                let last = *dead.iter().max().unwrap();
-                let rest: Vec<u64> = (0..n).filter(|x| x % nw == i as u64 && *x > last).collect();
-                if rest.is_empty() {
-                    break;
-                }
-                if crashed.len() >= 10 {
-                    // enough evidence: the violation is reported, the rest of the slice is not explored
-                    stopped_after_crashes = true;
-                    break;
-                }
-                respawns += 1;
-                let mut c = spawn_worker(prop, thorough, vs, i as u64, nw, Some(&rest));
-                let out = c.stdout.take().unwrap();
-                for l in std::io::BufReader::new(out).lines().map_while(Result::ok) {
-                    if let Ok(v) = serde_json::from_str::<Value>(&l) {
-                        absorb(&mut agg, &known, prop, &v);
+                    _ => {
+                        agg.harness_errors.push(format!("worker {} died without an unfinished run", w));
+                        live -= 1;
                     }
-                }
-                if c.wait().map(|s| s.success()).unwrap_or(false) {
-                    break;
                 }
             }
         }
     }
+    drop(tx);
     for idx in &crashed {
         let v = Viol { clause: "abort".into(), sig: "process-abort".into(), detail: "the worker process died (abort / allocation failure / kill) during this run".into() };
         if is_known(&known, prop, &v) {
@@ -513,12 +598,12 @@ pub fn check_cmd(check: &'static dyn Check, thorough: bool) -> i32 {
         let step = std::cmp::max(1, all.len() / 32);
         let mut pick: Vec<u64> = all.iter().step_by(step).copied().take(32).collect();
         pick.reverse();
-        let mut c = spawn_worker(prop, thorough, vs, 0, 1, Some(&pick));
+        let mut c = spawn_worker(prop, thorough, vs, 0, 1, Some(&pick.iter().map(|i| i.to_string()).collect::<Vec<_>>().join(",")));
         let out = c.stdout.take().unwrap();
         for l in std::io::BufReader::new(out).lines().map_while(Result::ok) {
             if let Ok(v) = serde_json::from_str::<Value>(&l) {
                 if let Some(idx) = v["idx"].as_u64() {
-                    let h = v["ev_hash"].as_str().unwrap_or("");
+                    let h = v["eh"].as_str().unwrap_or("");
                     if agg.hashes.get(&idx).map(|x| x.as_str()) != Some(h) {
                         nondet.push(idx);
                     }
@@ -537,13 +622,13 @@ pub fn check_cmd(check: &'static dyn Check, thorough: bool) -> i32 {
     for ((clause, sig), idxs) in classes.iter() {
         println!("[{}] class clause={} sig={} runs={} first_idx={}", prop, clause, sig, idxs.len(), idxs.iter().min().unwrap());
     }
-    let _ = std::fs::create_dir_all(format!("{}/replays", VERIF_DIR));
+    let _ = std::fs::create_dir_all(format!("{}/replays", verif_dir()));
     for (k, ((clause, sig), idxs)) in classes.iter().enumerate() {
         if k >= 3 {
             break;
         }
         let idx = *idxs.iter().min().unwrap();
-        let path = format!("{}/replays/{}-{}-{}.json", VERIF_DIR, prop, vs, idx);
+        let path = format!("{}/replays/{}-{}-{}.json", verif_dir(), prop, vs, idx);
         let st = Command::new(self_exe())
             .arg("minimize")
             .arg(prop)
@@ -609,8 +694,8 @@ pub fn check_cmd(check: &'static dyn Check, thorough: bool) -> i32 {
         "wall_s": wall,
         "violations": violation_lines.len(),
     });
-    let _ = std::fs::create_dir_all(format!("{}/evidence", VERIF_DIR));
-    let _ = std::fs::write(format!("{}/evidence/{}.json", VERIF_DIR, prop), serde_json::to_string_pretty(&ev).unwrap());
+    let _ = std::fs::create_dir_all(format!("{}/evidence", verif_dir()));
+    let _ = std::fs::write(format!("{}/evidence/{}.json", verif_dir(), prop), serde_json::to_string_pretty(&ev).unwrap());
 
     for k in known.iter().filter(|k| k.property == prop && k.status == "open") {
         let n = agg.known_hits.get(&(k.clause.clone(), k.sig.clone())).copied().unwrap_or(0);
